@@ -120,3 +120,284 @@ def run(ctx):
             srcs = sorted(src(cfg.nodes[d].ast.value) for d in defs if cfg.nodes[d].kind == "stmt" and isinstance(cfg.nodes[d].ast, ast.Assign))
             ctx.check("R10.2", f"{cpf.key}::the distributed field is the given spectrum (or its evaluation on the power space), nothing else",
                       srcs == sorted([cpf.params()[1], f"PS_field({pdn}, {cpf.params()[1]})"]), str(srcs), cpf)
+
+
+# ---------------------------------------------------------------------------------------------------------------- R10.3-R10.6
+from ..poly import cpoly, p_add, p_mul, p_sym, p_str  # noqa: E402
+from ..util import known_atoms, find_nodes  # noqa: E402
+
+
+def _flag_eval(test, val, flags):
+    """three-valued evaluation of a test over {'real': bool, 'keep': bool}; flags maps source text -> ('real'|'keep', inverted)"""
+    t = src(test)
+    if t in flags:
+        nm, inv = flags[t]
+        return val[nm] ^ inv
+    if isinstance(test, ast.UnaryOp) and isinstance(test.op, ast.Not):
+        v = _flag_eval(test.operand, val, flags)
+        return None if v is None else not v
+    if isinstance(test, ast.BoolOp):
+        vs = [_flag_eval(v, val, flags) for v in test.values]
+        if isinstance(test.op, ast.And):
+            return False if any(v is False for v in vs) else (None if any(v is None for v in vs) else True)
+        return True if any(v is True for v in vs) else (None if any(v is None for v in vs) else False)
+    return None
+
+
+def _weight_calls(e):
+    """[(power const or None, spaces text or None)] for .weight(...) calls in e"""
+    out = []
+    for c in ast.walk(e):
+        if isinstance(c, ast.Call) and isinstance(c.func, ast.Attribute) and c.func.attr == "weight":
+            pw = c.args[0] if c.args else next((k.value for k in c.keywords if k.arg == "power"), ast.Constant(value=1))
+            sp = c.args[1] if len(c.args) > 1 else next((k.value for k in c.keywords if k.arg == "spaces"), None)
+            try:
+                pv = ast.literal_eval(pw)
+            except Exception:
+                pv = None
+            out.append((pv, None if sp is None or src(sp) == "None" else src(sp), c))
+    return out
+
+
+def r10_3(ctx, m):
+    pa = m.func(SUG, "power_analyze")
+    sp1 = m.func(SUG, "_single_power_analyze")
+    ctx.saw_func(pa)
+    ctx.saw_func(sp1)
+    ctx.rule("R10.3", "power_analyze: without phase information the analysed quantity is the squared modulus re^2+im^2 (f^2 for real "
+                      "input), with phase information the pair (re^2, im^2) recombined as p0 + 1j*p1; only complex input reaches the "
+                      "phase branch (real input is refused before `.imag` is read); every analysed space goes through "
+                      "_single_power_analyze(part, space, binbounds) = PowerDistributor(domain, PowerSpace(domain[space], binbounds), "
+                      "space).adjoint_times(volume-weighted part) / bin size, and volume weights cancel on all other spaces", floor=7)
+    cfg = cfg_of(pa)
+    params = pa.params()
+    rd = cfg.reaching_defs(params)
+    fld = params[0]
+    keep = params[3] if len(params) > 3 else None
+    flags = {}
+    if keep:
+        flags[keep] = ("keep", False)
+    for n in cfg.nodes:
+        if n.kind == "stmt" and isinstance(n.ast, ast.Assign) and len(n.ast.targets) == 1 and isinstance(n.ast.targets[0], ast.Name):
+            v = n.ast.value
+            inv = False
+            if isinstance(v, ast.UnaryOp) and isinstance(v.op, ast.Not):
+                v, inv = v.operand, True
+            if isinstance(v, ast.Call) and call_name(v) == "iscomplextype" and len(v.args) == 1 and src(v.args[0]) == f"{fld}.dtype":
+                # name = iscomplextype -> real inverted; name = not iscomplextype -> real
+                flags[n.ast.targets[0].id] = ("real", not inv)
+    for x in ast.walk(pa.node):
+        if isinstance(x, ast.Call) and call_name(x) == "iscomplextype" and len(x.args) == 1 and src(x.args[0]) == f"{fld}.dtype":
+            flags[src(x)] = ("real", True)
+    if not any(v[0] == "real" for v in flags.values()) or not keep:
+        ctx.und("R10.3", f"{pa.key}::real/complex flag", "no iscomplextype(<field>.dtype) flag found", pa)
+        return
+    # loop over spaces
+    loops = [n for n in cfg.nodes if n.kind == "for" and n.first]
+    loop_asts = [l.ast for l in loops]
+    pname = None
+    helper_calls = []
+    for l in loop_asts:
+        for c in ast.walk(l):
+            if isinstance(c, ast.Call) and call_name(c) == sp1.name:
+                helper_calls.append((l, c))
+    key = f"{pa.key}::every analysed space goes through {sp1.name}(part, space, binbounds)"
+    if len(helper_calls) != 1:
+        ctx.und("R10.3", key, f"{len(helper_calls)} helper calls inside loops", pa)
+        return
+    loop, hc = helper_calls[0]
+    lv = src(loop.target)
+    # the list that is rebuilt by the loop
+    st = [s_ for s_ in loop.body if isinstance(s_, ast.Assign) and any(x is hc for x in ast.walk(s_))]
+    okk = None
+    if len(st) == 1 and isinstance(st[0].targets[0], ast.Name) and isinstance(st[0].value, ast.ListComp) and st[0].value.elt is hc:
+        pname = st[0].targets[0].id
+        comp = st[0].value.generators[0]
+        okk = src(comp.iter) == pname and not comp.ifs and [src(a) for a in hc.args] == [src(comp.target), lv, params[2]] \
+            and src(loop.iter) == params[1]
+    ctx.check("R10.3", key, okk, src(st[0]) if st else None, pa, hc)
+    if pname is None:
+        return
+    # definitions of the parts list before the loop
+    loopnode = [l for l in loops if l.ast is loop][0]
+    defs = sorted((rd.get(loopnode.id) or {}).get(pname, ()))
+    a, b = p_sym("re"), p_sym("im")
+    seen_vals = set()
+    for d in defs:
+        dn = cfg.nodes[d]
+        if dn.kind != "stmt" or not isinstance(dn.ast, ast.Assign) or any(dn.ast is s_ for s_ in ast.walk(loop)):
+            continue
+        atoms = known_atoms(cfg, dn.id)
+        for K in (False, True):
+            for R in (False, True):
+                val = {"keep": K, "real": R}
+                if any(_flag_eval(t, val, flags) is (not pol) for t, pol in atoms):
+                    continue
+                seen_vals.add((K, R))
+                key = f"{pa.key}::keep_phase_information={K}, {'real' if R else 'complex'} input"
+                if K and R:
+                    ctx.bad("R10.3", key, f"real input reaches `{short(dn.ast)}`: there is no phase to keep (and `.imag` raises on real "
+                                          f"fields); the refusal guard must test for REAL input", pa, dn.ast)
+                    continue
+                if not isinstance(dn.ast.value, ast.List):
+                    ctx.und("R10.3", key, f"`{short(dn.ast)}` is not a list display", pa, dn.ast)
+                    continue
+                env = {fld: (a, {} if R else b)}
+                try:
+                    got = [cpoly(e, env) for e in dn.ast.value.elts]
+                except KeyError as exc:
+                    ctx.und("R10.3", key, f"term outside the polynomial fragment: {exc}", pa, dn.ast)
+                    continue
+                im2 = {} if R else p_mul(b, b)
+                want = [(p_mul(a, a), {}), (im2, {})] if K else [(p_add(p_mul(a, a), im2), {})]
+                ctx.check("R10.3", key, got == want,
+                          "analysed: [" + ", ".join(f"{p_str(g[0])}" + (f" + i({p_str(g[1])})" if g[1] else "") for g in got) + "]", pa, dn.ast)
+    for K, R in ((False, False), (False, True), (True, False)):
+        if (K, R) not in seen_vals:
+            ctx.bad("R10.3", f"{pa.key}::keep_phase_information={K}, {'real' if R else 'complex'} input",
+                    "this admissible input never reaches the analysis (refused or no definition of the analysed quantity)", pa)
+    # recombination
+    rets = [n for n in cfg.nodes if n.kind == "stmt" and isinstance(n.ast, ast.Return) and n.ast.value is not None]
+    key = f"{pa.key}::result = p0 + 1j*p1 with phase information, p0 without"
+    if len(rets) != 1 or not isinstance(rets[0].ast.value, ast.IfExp):
+        ctx.und("R10.3", key, "return shape not recognised", pa)
+    else:
+        ie = rets[0].ast.value
+        t, body, orelse = ie.test, ie.body, ie.orelse
+        tv = _flag_eval(t, {"keep": True, "real": False}, flags)
+        if tv is False:
+            body, orelse = orelse, body
+        env = {pname: None}
+
+        class Sub(ast.NodeTransformer):
+            def visit_Subscript(self, node):
+                if src(node.value) == pname and isinstance(node.slice, ast.Constant):
+                    return ast.Name(id=f"__p{node.slice.value}", ctx=ast.Load())
+                return node
+        import copy
+        try:
+            e2 = {"__p0": (p_sym("p0"), {}), "__p1": (p_sym("p1"), {})}
+            gb = cpoly(Sub().visit(copy.deepcopy(body)), e2)
+            go = cpoly(Sub().visit(copy.deepcopy(orelse)), e2)
+            ctx.check("R10.3", key, tv is not None and gb == (p_sym("p0"), p_sym("p1")) and go == (p_sym("p0"), {}), src(ie), pa, rets[0].ast)
+        except KeyError as exc:
+            ctx.und("R10.3", key, f"term not understood: {exc}", pa)
+    # the helper and the volume weights
+    r1 = [x for x in walk_no_nested(sp1.node) if isinstance(x, ast.Return)]
+    hkey = f"{sp1.key}::adjoint distribution of the volume-weighted part, divided by the bin size"
+    if len(r1) != 1:
+        ctx.und("R10.3", hkey, f"{len(r1)} returns", sp1)
+        return
+    c1 = cfg_of(sp1)
+    rd1 = c1.reaching_defs(sp1.params())
+    rn = [n for n in c1.nodes if n.kind == "stmt" and n.ast is r1[0]][0]
+    e = inline_at(c1, rd1, rn.id, r1[0].value, depth=3)
+    f1, i1, bb1 = sp1.params()[:3]
+    adj = [c for c in ast.walk(e) if isinstance(c, ast.Call) and isinstance(c.func, ast.Attribute) and c.func.attr in ("adjoint_times", "adjoint")]
+    if len(adj) != 1 or len(adj[0].args) != 1:
+        ctx.und("R10.3", hkey, f"`{src(e)}`: adjoint_times call not found", sp1)
+        return
+    adj = adj[0]
+    pdc = adj.func.value
+    okk = isinstance(pdc, ast.Call) and call_name(pdc) == "PowerDistributor" and len(pdc.args) == 3 and src(pdc.args[0]) == f"{f1}.domain" \
+        and src(pdc.args[1]) == f"PowerSpace({f1}.domain[{i1}], {bb1})" and src(pdc.args[2]) == i1
+    ctx.check("R10.3", f"{sp1.key}::distributor = PowerDistributor(domain, PowerSpace(domain[space], binbounds), space)", okk, src(pdc), sp1, r1[0])
+    inner = _weight_calls(adj.args[0])
+    outer = [w for w in _weight_calls(e) if w[2] not in [x[2] for x in inner]]
+    # base of the inner chain must be the field itself
+    base = adj.args[0]
+    while isinstance(base, ast.Call) and isinstance(base.func, ast.Attribute) and base.func.attr == "weight":
+        base = base.func.value
+    outer_ok = True
+    oc = e
+    while isinstance(oc, ast.Call) and isinstance(oc.func, ast.Attribute) and oc.func.attr == "weight":
+        oc = oc.func.value
+    outer_ok = oc is adj
+    pre = _weight_calls(ast.Module(body=[s_ for s_ in pa.node.body], type_ignores=[]))
+    unknown = [w for w in inner + outer + pre if w[0] is None or w[1] not in (None, i1, lv, params[1])]
+    if src(base) != f1 or not outer_ok or unknown:
+        ctx.und("R10.3", hkey, f"`{src(e)}`: weighting chain not recognised", sp1)
+        return
+    a_all = sum(w[0] for w in inner if w[1] is None)
+    a_idx = sum(w[0] for w in inner if w[1] == i1)
+    b_all = sum(w[0] for w in outer if w[1] is None)
+    b_idx = sum(w[0] for w in outer if w[1] == i1)
+    e_all = sum(w[0] for w in pre if w[1] is None)
+    e_an = sum(w[0] for w in pre if w[1] == params[1])
+    e_bad = [w for w in pre if w[1] not in (None, params[1])]
+    problems = []
+    if e_bad:
+        problems = None
+    else:
+        if a_all + b_all != 0:
+            problems.append(f"each pass changes the volume weight of the other spaces by dvol^{a_all + b_all}")
+        if e_all != 0:
+            problems.append(f"power_analyze weights ALL spaces by dvol^{e_all} and nothing removes it from the spaces that are not analysed")
+        if e_all + e_an + a_all + a_idx != 1:
+            problems.append(f"the analysed space enters the bin sum with weight dvol^{e_all + e_an + a_all + a_idx}, not dvol^1")
+        if b_all + b_idx != -1:
+            problems.append(f"the bin sums are scaled by (bin size)^{b_all + b_idx}, not divided by the bin size")
+    ctx.check("R10.3", hkey, None if problems is None else not problems, "; ".join(problems or []) or src(e), sp1, r1[0])
+
+
+def r10_4(ctx, m):
+    """a Field is an Operator and hence callable: `callable(x)` cannot separate spectrum fields from spectrum functions"""
+    ctx.rule("R10.4", "argument discrimination: no `isinstance(x, C)` test for a class C that defines __call__ (Field derives from "
+                      "Operator) sits in a region that is only reached when `callable(x)` is false - that branch would be dead and "
+                      "the documented argument type rejected", floor=1)
+    F = m.cls("nifty.cl.field", "Field")
+    has_call = any("__call__" in c.methods for c in m.mro(F))
+    mod = m.module(SUG)
+    n_sites = 0
+    for fi in [f for f in mod.functions.values()]:
+        tests = [x for x in ast.walk(fi.node) if isinstance(x, ast.Call) and call_name(x) == "callable" and len(x.args) == 1]
+        if not tests:
+            continue
+        cfg = cfg_of(fi)
+        for n, c in find_nodes(cfg, lambda q: isinstance(q, ast.Call) and call_name(q) == "isinstance" and len(q.args) == 2):
+            subj = src(c.args[0])
+            cls_names = [src(x) for x in (c.args[1].elts if isinstance(c.args[1], ast.Tuple) else [c.args[1]])]
+            if "Field" not in cls_names:
+                continue
+            atoms = known_atoms(cfg, n.id)
+            dead = [t for t, pol in atoms if isinstance(t, ast.Call) and call_name(t) == "callable" and src(t.args[0]) == subj and pol is False]
+            n_sites += 1
+            ctx.check("R10.4", f"{fi.key}::isinstance({subj}, Field) is reachable for a Field", not (dead and has_call),
+                      f"guarded by `not callable({subj})`, but Field inherits __call__ from Operator: a Field never gets here" if dead else None,
+                      fi, c)
+    if n_sites == 0:
+        ctx.und("R10.4", f"{SUG}::callable/isinstance discrimination sites", "none found", mod.relpath)
+
+
+def r10_5(ctx, m):
+    """index arrays keep their integer width"""
+    ctx.rule("R10.5", "the bin index array of a distributor is stored without a narrowing integer cast (bin indices run up to the "
+                      "number of bins, which is not bounded by a small integer type)", floor=2)
+    D = m.cls(DIST, "DOFDistributor")
+    P = m.cls(DIST, "PowerDistributor")
+    NARROW = ("int8", "int16", "int32", "uint8", "uint16", "uint32", "short", "intc", "byte", "ubyte", "ushort", "uintc", "float16", "float32", "half", "single")
+    for cls in (D, P):
+        for name, fi in cls.methods.items():
+            if name not in ("__init__", "_init2"):
+                continue
+            casts = []
+            for c in ast.walk(fi.node):
+                if isinstance(c, ast.Call) and isinstance(c.func, ast.Attribute) and c.func.attr in ("astype", "view"):
+                    casts.append((c, src(c.args[0]) if c.args else ""))
+                elif isinstance(c, ast.Call):
+                    for k in c.keywords:
+                        if k.arg == "dtype":
+                            casts.append((c, src(k.value)))
+            bad = [(c, t) for c, t in casts if t.split(".")[-1].strip("'\"") in NARROW and ("dex" in src(c) or "pindex" in src(c))]
+            ctx.check("R10.5", f"{fi.key}::no narrowing cast of the index array", not bad,
+                      "; ".join(f"`{short(c)}` narrows to {t}" for c, t in bad) or None, fi, bad[0][0] if bad else None)
+
+
+_run_c10b = run
+
+
+def run(ctx):  # noqa: F811
+    _run_c10b(ctx)
+    r10_3(ctx, ctx.model)
+    r10_4(ctx, ctx.model)
+    r10_5(ctx, ctx.model)
